@@ -21,6 +21,7 @@ func init() {
 			Rule: "M: every line of <=4 (quick) / 5 (thorough, reduced alphabet at 5) items from: text chunks {a, xy, é, 日本, 😀, space, \"a b\"}, \\[ and \\], markers over names {a, b, é1} (open, close by name, close all, self-closing) with property sets covering integer, decimals (1.05, 2.50, 0.007), booleans in any case, bare word, quoted string with spaces and escaped quote, shorthand [a=v], 2-3 properties, trimwhitespace=false, " +
 				"replacement markers select / plural / ordinal / nomarkup (self-closing and closed by name, every ordinal case value, % placeholders, multi-byte replacement text), with nested / overlapping / repeated arrangements by well-formedness-preserving choices; x optional character prefix (ASCII / multi-byte) x optional leading / trailing whitespace (for <=3 items); " +
 				"S: every marker structure of <=8 (quick) / 11 (thorough) markers over {open a, open b, close a, close b, close all}, each followed by a character of text (same-name markers open at the same time: first-in-first-out and last-in-first-out pairings both accepted, but removing the markers of the other name must not change the pairing); the <=3-item lines are also shown through the runner and Line.Attributes compared; " +
+				"V: every numeric property value i.f over a grid of integer parts (incl. leading zeros, 2^52+1, 2^53+1 in the thorough tier) x every fraction string of <=3 (quick) / 4 (thorough) digits plus long fractions of up to 40 digits, in four syntactic positions, expected value = the decimal meaning of the characters written; runner / runner-options: the short lines shown as dialogue lines and as the 2-3 options of one choice (all options are prepared by one parser and returned together); " +
 				"constructive oracle (plain text, per marker name / typed properties / position / length in characters / TextForAttribute); a case is one line; non-trivial = contains at least one marker",
 			StatesMean:  "distinct generated lines; transitions = ParseMarkup calls (plus Next calls for the runner part)",
 			Assumptions: []string{"constructions without a single meaning under the property are not checked: a self-closing marker between whitespace (one following space may be trimmed), a colon outside the prefix, leading whitespace before a prefix", "attributes of replacement markers themselves, attribute order and SourcePosition are not constrained here", "markers left open at the end of the line are C14/C15 material"},
@@ -563,6 +564,70 @@ func runC13(ctx *report.Ctx) {
 		sort.Strings(want)
 		if pan2 != "" || strings.Join(got, " ; ") != strings.Join(want, " ; ") {
 			fail("runner-attributes", fmt.Sprintf("Line.Attributes: expected [%s], got [%s] %s", strings.Join(want, " ; "), strings.Join(got, " ; "), pan2))
+		}
+	})
+
+	// through the runner, as options: the runner prepares all options of a choice with one parser and returns them
+	// together; every option must carry its own text and attributes (first option <=2 items, the others 1 item)
+	embeddable := func(src string) bool {
+		return !(strings.HasPrefix(src, `\[`) || strings.HasPrefix(src, `\]`) || strings.HasPrefix(src, " ") || strings.HasPrefix(src, "->") || strings.TrimSpace(src) == "" ||
+			strings.Contains(src, "//") || strings.Contains(src, "<<") || strings.Contains(src, "#") || strings.Contains(src, "{") || strings.Contains(src, `\"`))
+	}
+	part(ctx, "runner-options", -1, func(c *explore.Chooser) {
+		k := 2 + c.Choose(report.Pick(ctx, 1, 2), "noptions")
+		var lines []*mg.Line
+		markers := 0
+		for i := 0; i < k; i++ {
+			l := &mg.Line{}
+			n := 1
+			if i == 0 {
+				n = 1 + c.Choose(2, "nitems")
+			}
+			markers += build(c, n, l, false)
+			if i == 0 && !c.Mine() {
+				return
+			}
+			if !l.Finish() || l.Ambiguous != "" || !embeddable(l.Src.String()) {
+				return
+			}
+			lines = append(lines, l)
+		}
+		script := "title: A\n---\n"
+		for _, l := range lines {
+			script += "-> " + l.Src.String() + "\n"
+		}
+		script += "===\n"
+		ctx.Current("runner-options: " + script)
+		r, err, pan := yc.NewReal([]string{script}, "abc", nil)
+		ctx.AddEvals(1, b2i(markers > 0))
+		ctx.AddStates(1)
+		ctx.AddTransitions(1)
+		fail := func(clause, detail string) {
+			ctx.Violation(report.Violation{Clause: clause, Witness: "runner-option-markup:" + strings.ReplaceAll(script, "\n", " / "), Detail: detail, Choices: c.Choices(), Part: "runner-options", Extra: map[string]any{"scripts": []string{script}}})
+		}
+		if err != nil || pan != "" {
+			fail("runner-load", fmt.Sprintf("the script with these options does not load: %v %s", err, pan))
+			return
+		}
+		ro := r.Next(0)
+		if ro.K != yc.OOptions || len(ro.Opts) != k {
+			fail("runner-line", "expected the option group, got "+ro.String()+fmt.Sprint(" ", ro.Err))
+			return
+		}
+		for i, l := range lines {
+			ex := l.Expected()
+			if ro.Opts[i].Text != ex.Text {
+				fail("runner-text", fmt.Sprintf("option %d text: expected %q, got %q", i, ex.Text, ro.Opts[i].Text))
+				return
+			}
+			res := &markup.ParseResult{Text: ro.Opts[i].Text, Attributes: ro.Opts[i].Attrs}
+			got, pan2 := mg.RealKeys(res, mg.ReplacementNames)
+			want := ex.Keys()
+			sort.Strings(want)
+			if pan2 != "" || strings.Join(got, " ; ") != strings.Join(want, " ; ") {
+				fail("runner-attributes", fmt.Sprintf("option %d Line.Attributes: expected [%s], got [%s] %s", i, strings.Join(want, " ; "), strings.Join(got, " ; "), pan2))
+				return
+			}
 		}
 	})
 }
